@@ -3,7 +3,7 @@
    b0 = a freshly constructed buffer, ops = any list of add(row)/reset() calls,
    recent ops = the rows added since the last reset (ghost), k = number of an add in it. *)
 From Coq Require Import ZArith List Bool.
-From SB3V Require Import Gen.Frag_replay Model.Replay Proofs.ReplayProofs.
+From SB3V Require Import Gen.Frag_replay Model.Replay Proofs.ReplayProofs Model.Minibatch Model.Rollout Proofs.RolloutProofs.
 Import ListNotations.
 Local Open Scope Z_scope.
 
@@ -114,6 +114,74 @@ Proof.
 Qed.
 Print Assumptions C03_frag_get.
 
+(* with a VecNormalize passed to sample(): every element is normalize_obs / normalize_reward (fo / fr) of the
+   STORED raw values of that one add; action and done untouched *)
+Theorem C03_sample_normalized : forall fo fr dict bs n ht b0 ops d e, create dict bs n false ht = Some b0 ->
+  let b := run b0 ops in let h := recent ops in
+  fst (sample_bounds b) <= d < snd (sample_bounds b) ->
+  exists k, 0 <= k /\ len h - capacity bs n <= k < len h /\
+    let t := col e (rowZ h k) in
+    get_norm fo fr b (idx_of_draw b d) e = (fo (t_obs t), t_act t, fo (t_next t), done_flag ht t, fr (t_rew t)).
+Proof. exact reach_sample_normalized. Qed.
+Print Assumptions C03_sample_normalized.
+
+(* reset() empties the replay buffer (regenerated BaseBuffer.reset): nothing can be drawn any more *)
+Theorem C03_reset_empties : forall b,
+  (pos (reset b), full (reset b)) = base_reset /\
+  size (reset b) = 0 /\ pos (reset b) = 0 /\ full (reset b) = false /\ sample_bounds (reset b) = (0, 0).
+Proof. exact (fun b => conj (frag_base_reset b) (reset_empties b)). Qed.
+Print Assumptions C03_reset_empties.
+
+(* ---- RolloutBuffer / DictRolloutBuffer: b = the buffer after ANY list of add / reset / get calls (calls that
+        raise leave it unchanged), h = the rows added since the last reset ---- *)
+Theorem C03_rollout_cursor : forall T n ops, (0 < T)%nat ->
+  let b := fst (rrun (rcreate T n) ops) in let h := rrecent (rcreate T n) [] ops in
+  r_pos b = length h /\ (length h <= T)%nat /\ r_full b = (length h =? T)%nat.
+Proof. exact rollout_cursor. Qed.
+Print Assumptions C03_rollout_cursor.
+
+(* add() raises exactly when buffer_size rows are stored; get() raises exactly when they are not *)
+Theorem C03_rollout_calls_raise : forall T n ops, (0 < T)%nat -> forall row,
+  let b := fst (rrun (rcreate T n) ops) in let h := rrecent (rcreate T n) [] ops in
+  (rstep b (RAdd row) = None <-> length h = T) /\ (rstep b RGet = None <-> length h <> T).
+Proof. exact rollout_calls_raise. Qed.
+Print Assumptions C03_rollout_calls_raise.
+
+(* after the first get() of a fill and for any number of further passes, the arrays are the swap_and_flatten of the
+   stored rows, flattened exactly once: flat index e*T + t holds row t, column e *)
+Theorem C03_rollout_flat_once : forall T n ops, (0 < T)%nat ->
+  let b := fst (rrun (rcreate T n) ops) in let h := rrecent (rcreate T n) [] ops in
+  r_ready b = true ->
+  length h = T /\ r_flat b = Some (flatten 0 n h) /\
+  (forall e t, (t < T)%nat -> (e < n)%nat -> nth (e * T + t) (flatten 0 n h) 0 = nth e (nth t h []) 0) /\
+  rstep b RGet = Some b.
+Proof.
+  exact (fun T n ops HT Hr => match rollout_flat_is_flatten_of_rows T n ops HT Hr with
+         | conj A (conj B C) => conj A (conj B (conj C (rollout_get_idempotent T n ops HT Hr))) end).
+Qed.
+Print Assumptions C03_rollout_flat_once.
+
+Theorem C03_rollout_reset_empties : forall b,
+  exists b', rstep b RReset = Some b' /\ r_pos b' = 0%nat /\ r_full b' = false /\ r_ready b' = false /\ r_rows b' = [] /\ r_flat b' = None /\
+             rstep b' RGet = None.
+Proof. exact rollout_reset_empties. Qed.
+Print Assumptions C03_rollout_reset_empties.
+
+Theorem C03_frag_rollout : forall b pos T full,
+  (rollout_add_cursor (Z.of_nat pos) (Z.of_nat T) full = (Z.of_nat (fst (radd_cursor pos T full)), snd (radd_cursor pos T full)) /\
+   dictrollout_add_cursor (Z.of_nat pos) (Z.of_nat T) full = (Z.of_nat (fst (radd_cursor pos T full)), snd (radd_cursor pos T full))) /\
+  rstep b RGet =
+    (if rollout_get_requires (r_full b) then
+       if rollout_get_flatten_guard (r_ready b)
+       then Some (mkR (r_T b) (r_n b) (r_pos b) (r_full b) rollout_get_sets_ready (r_rows b) (Some (flatten 0 (r_n b) (arr b))))
+       else Some b
+     else None) /\
+  (rstep b RReset = Some (mkR (r_T b) (r_n b) (Z.to_nat (fst base_reset)) (snd base_reset) rollout_reset_ready [] None) /\
+   rollout_reset_ready = dictrollout_reset_ready /\ rollout_get_sets_ready = dictrollout_get_sets_ready /\
+   (forall f, rollout_get_requires f = dictrollout_get_requires f) /\ (forall r, rollout_get_flatten_guard r = dictrollout_get_flatten_guard r)).
+Proof. exact (fun b pos T full => conj (frag_radd_cursor pos T full) (conj (frag_rstep_get b) (frag_rstep_reset b))). Qed.
+Print Assumptions C03_frag_rollout.
+
 (* ---- non-vacuity: a capacity-3 ring with 2 envs (buffer_size 7), 5 adds (wraps), timeouts on ---- *)
 Definition ex_row (k : Z) : row :=
   [mkT (10 * k) (10 * k + 1) (10 * k + 2) (10 * k + 3) (k =? 2) (k =? 2);
@@ -136,3 +204,10 @@ Example C03_ex_memopt :
     map (idx_of_draw (run b0 ops)) [1; 2; 3] = [3; 0; 1] /\
     get (run b0 ops) 1 0 = (5, 105, 6, 0, 205).
 Proof. eexists. split; [reflexivity|]. vm_compute. repeat split; reflexivity. Qed.
+
+Example C03_ex_rollout :
+  let ops := [RAdd [1; 2]; RGet; RAdd [3; 4]; RAdd [5; 6]; RAdd [7; 8]; RGet; RGet; RReset; RGet; RAdd [9; 10]] in
+  snd (rrun (rcreate 3 2) ops) = [false; true; false; false; true; false; false; false; true; false] /\
+  map (fun o => snd o) (firstn 7 (robserve (rcreate 3 2) ops)) =
+    [None; None; None; None; None; Some [1; 3; 5; 2; 4; 6]; Some [1; 3; 5; 2; 4; 6]].
+Proof. split; reflexivity. Qed.
